@@ -385,6 +385,59 @@ def Led.Idle (l : Led) : Prop :=
 
 def Led.empty (n : Nat) : Led := ⟨[], fun _ => [], fun _ => [], fun _ => [], [], n, 0, 0⟩
 
+/-! ### the stream manager under concurrent use: `AddStream` of a late send against `ReleaseStreams` -/
+
+/-- what can happen to one session's entry of the stream manager, one critical section each -/
+inductive SEv where
+  | add (i : Nat)   -- a send opens stream `i` and registers it (`AddStream`, under the lock)
+  | dup (i : Nat)   -- a send opens stream `i` but another send to the same peer registered first: it closes `i`
+  | dupKept (i : Nat) -- as found: the losing stream was used once and then forgotten, open
+  | release         -- `ReleaseStreams`: close every registered stream and delete the entry, all under ONE lock
+  | snap            -- seeded variant, step 1: copy the entry under the lock
+  | closeSnap       -- seeded variant, step 2: close the copied streams without the lock
+  | del             -- seeded variant, step 3: delete the entry under the lock again
+deriving DecidableEq, Repr
+
+structure SMgr where
+  opened : List Nat   -- every stream ever opened for the session
+  reg    : List Nat   -- registered in the manager
+  closed : List Nat
+  snapd  : List Nat   -- the variant's snapshot
+deriving Repr, DecidableEq
+
+def SMgr.step (m : SMgr) : SEv → SMgr
+  | .add i     => { m with opened := i :: m.opened, reg := i :: m.reg }
+  | .dup i     => { m with opened := i :: m.opened, closed := i :: m.closed }
+  | .dupKept i => { m with opened := i :: m.opened }
+  | .release   => { m with closed := m.reg ++ m.closed, reg := [] }
+  | .snap      => { m with snapd := m.reg }
+  | .closeSnap => { m with closed := m.snapd ++ m.closed }
+  | .del       => { m with reg := [] }
+
+def SMgr.run (evs : List SEv) : SMgr := evs.foldl SMgr.step ⟨[], [], [], []⟩
+
+/-- no stream is dropped from the manager without having been closed -/
+def SMgr.NoneLost (m : SMgr) : Prop := ∀ i ∈ m.opened, i ∈ m.reg ∨ i ∈ m.closed
+
+instance (m : SMgr) : Decidable m.NoneLost := by unfold SMgr.NoneLost; infer_instance
+
+/-- a schedule that only uses what the real code does -/
+def SEv.real : SEv → Bool
+  | .add _ | .dup _ | .release => true
+  | _ => false
+
+/-! ### the global time-out of `watchExecution` -/
+
+/-- the watch arms ONE timer when it starts; fail messages that are ignored (not from the coordinator) do not touch
+    it: whatever arrives, the time-out comes `T` after the start -/
+def watchEnd (T : Nat) (_foreign : List Nat) : Nat := T
+
+/-- seeded variant: a fresh `time.After(T)` on every pass through the select - every ignored message that arrives
+    before the current deadline moves the deadline to its own arrival + T -/
+def watchEndRearmed (T : Nat) (d : Nat) : List Nat → Nat
+  | [] => d
+  | t :: ts => if t < d then watchEndRearmed T (t + T) ts else d
+
 /-! ### a retryable (signing) process object that is Run several times and stopped once -/
 
 /-- one `Run` of the repaired signing processes: release the previous run's subscription, then subscribe -/
